@@ -167,7 +167,7 @@ def execute(case):
     V, keys, obs = [], [], []
     faults = {"write_error": 0, "restart": 0}
     probes = {"unseen_ngram_in_query": 0, "empty_query": 0, "repeated_token_query": 0,
-              "lopsided_posterior": 0, "load_of_torn_file": 0, "save_fault_not_reached": 0, "load_compared": 0,
+              "lopsided_posterior": 0, "refit_same_object": 0, "load_of_torn_file": 0, "save_fault_not_reached": 0, "load_compared": 0,
               "model_intact_after_failed_save": 0, "corpus_candidates": 0}
     n_eval = 0
     store = SimStore(faults)
@@ -193,6 +193,23 @@ def execute(case):
                 pipes[op["p"]] = pl
                 refs[op["p"]] = TextbookNB(X, y, alpha=op.get("alpha", 1.0))
                 obs.append([i, "FIT", len(X)])
+            elif k == "REFIT":
+                # fit() again on the SAME pipeline object: the model must be that of the new
+                # training set, nothing of the first fit may survive
+                if op["p"] not in pipes:
+                    continue
+                X, y = op["X"], op["y"]
+                alpha = getattr(pipes[op["p"]].estimator, "alpha", 1.0)
+                try:
+                    pipes[op["p"]] = pipes[op["p"]].fit(X, y)
+                except Exception as e:
+                    viol("C16.textbook", "refit-raises:" + type(e).__name__,
+                         "op %d: fitting an already fitted pipeline again raised %s: %s"
+                         % (i, type(e).__name__, e))
+                    continue
+                refs[op["p"]] = TextbookNB(X, y, alpha=alpha)
+                probes["refit_same_object"] += 1
+                obs.append([i, "REFIT", len(X)])
             elif k == "PREDICT":
                 if op["p"] not in pipes:
                     continue
@@ -463,6 +480,11 @@ def plan(prop, tier, seed):
                             "alpha": 1.0 if via == "train" else rng.choice([1.0, 1.0, 0.5, 2.0])})
                 alphabets[p] = alphabet
                 n_p = max(n_p, p + 1)
+            elif r < 0.2:
+                p = rng.choice(sorted(alphabets))
+                X, y, alphabet = _corpus(rng)
+                ops.append({"op": "REFIT", "p": p, "X": X, "y": y})
+                alphabets[p] = sorted(set(alphabets[p]) | set(alphabet))
             elif r < 0.55:
                 p = rng.choice(sorted(alphabets))
                 ops.append({"op": "PREDICT", "p": p, "doc": _doc(rng, alphabets[p])})
